@@ -552,7 +552,7 @@ impl Attributes {
         Attributes { forms }
     }
 }
-const ATTR_TARGETS: u64 = 14;
+const ATTR_TARGETS: u64 = 17;
 impl RuleFamily for Attributes {
     fn name(&self) -> String {
         format!("attributes/{} forms of the known (and two unknown) directives x {} targets x {{once, twice}}", self.forms.len(), ATTR_TARGETS)
@@ -570,7 +570,17 @@ impl RuleFamily for Attributes {
         }
         let mut f = MFile::module("M");
         let mut s = st("S", vec![MField::new("f", MType::prim("int32"))]);
-        let mut i = iface("I", vec![], vec![op("o", vec![MParam::new("p", MType::prim("int32"))], MRet::None), op("r", vec![], MRet::Tuple(vec![MParam::new("x", MType::prim("int32")), MParam::new("y", MType::prim("int32"))]))]);
+        let mut i = iface(
+            "I",
+            vec![],
+            vec![
+                op("o", vec![MParam::new("p", MType::prim("int32"))], MRet::None),
+                op("r", vec![], MRet::Tuple(vec![MParam::new("x", MType::prim("int32")), MParam::new("y", MType::prim("int32"))])),
+                op("q", vec![], MRet::Single { tag: None, stream: false, ty: MType::prim("int32") }),
+                op("s", vec![], MRet::Single { tag: None, stream: true, ty: MType::prim("int32") }),
+                op("t", vec![MParam { stream: true, ..MParam::new("p", MType::prim("int32")) }], MRet::None),
+            ],
+        );
         let mut e = en("E", Some(MType::prim("uint8")), vec![enumerator("A")]);
         let mut c = custom("C");
         let mut al = alias("A", MType::prim("int32"));
@@ -618,7 +628,13 @@ impl RuleFamily for Attributes {
                 }
             }
             12 => c.common_mut().attrs = attrs,
-            _ => al.common_mut().attrs = attrs,
+            13 => al.common_mut().attrs = attrs,
+            // operations with a single return, with a return that is only a stream, with a streamed parameter
+            k => {
+                if let MDef::Interface(x) = &mut i {
+                    x.ops[(k - 12) as usize].c.attrs = attrs;
+                }
+            }
         }
         f.defs.extend([s, i, e, c, al]);
         (vec![f], format!("[{}{}] x{} on target {target}", a.directive, a.args.as_ref().map(|x| format!("({})", x.iter().map(|y| y.value()).collect::<Vec<_>>().join(","))).unwrap_or_default(), if twice { 2 } else { 1 }))
